@@ -5,7 +5,7 @@
            the shape obtained through `shapes` (must equal the S answer: C09_trace_shape, checked here by execution)
            H <order>  header_size order *)
 open C09_model
-let rec nat_of_int (n : int) : nat = if n <= 0 then O else S (nat_of_int (n - 1))
+let nat_of_int (n : int) : nat = let rec go acc k = if k <= 0 then acc else go (S acc) (k - 1) in go O n
 let int_of_nat (n : nat) : int = let rec go acc = function O -> acc | S k -> go (acc + 1) k in go 0 n
 let split_ws (s : string) : string list = List.filter (fun x -> x <> "") (String.split_on_char ' ' s)
 let each_line (f : string -> string) : unit =
